@@ -88,7 +88,7 @@ def run(chk):
     stats = {"programs": 0, "runs": 0, "known": {}}
     n = 120 if chk.tier == "quick" else 3000
     for i in range(n):
-        gen = pylite.Gen(rng)
+        gen = pylite.Gen(rng, weights={"yieldfrom": 2})
         fn = gen.function(generator=rng.random() < 0.25, size=rng.randrange(4, 12))
         src = pylite.render(fn)
         args, script, gscript = progrun.gen_inputs(rng, fn)
